@@ -47,6 +47,9 @@ func rulesC03(c *Ctx) {
 		if hasSp {
 			want, isSpecOp = precedenceSpec[sp]
 		}
+		if isSpecOp {
+			nOps++
+		}
 		if !ok {
 			c.Unk("C03.table", key, prec.Pos(), "precedence is not a constant function of the token")
 			continue
@@ -64,9 +67,6 @@ func rulesC03(c *Ctx) {
 			c.Bad("C03.table", key, isOp.Pos(), fmt.Sprintf("isOperator=%v but the property lists %q as operator=%v: an operator with precedence 0 sinks to the root, a non-operator ends the expression", b, sp, isSpecOp))
 		} else {
 			c.OK("C03.table", key, isOp.Pos(), fmt.Sprint(b))
-		}
-		if isSpecOp {
-			nOps++
 		}
 		rb, ok := s.evalConstBool(isRe, arg)
 		key = "IsRegexOp(" + name + ")"
